@@ -272,6 +272,11 @@ class C09Check(StatCheck):
                     out.append({"k": k, "p": p, "N": N})
         out.append({"k": 10, "p": None, "N": 30})
         out.append({"k": 20, "p": [3, 10], "N": 40})
+        # "every p in [0,1]": the probability handed over as a narrow NumPy float
+        out.append({"k": 2, "p": [1, 1], "N": 12, "ptype": "float16"})
+        out.append({"k": 1, "p": [1, 1], "N": 8, "ptype": "float32"})
+        out.append({"k": 2, "p": [3, 10], "N": 12, "ptype": "float32"})
+        out.append({"k": 2, "p": [0, 1], "N": 8, "ptype": "float32"})
         if tier == "thorough":
             out.append({"k": 10, "p": None, "N": 50, "sparse": True})
             out.append({"k": 10, "p": [1, 1], "N": 30})
@@ -289,6 +294,10 @@ class C09Check(StatCheck):
         k, N = cell["k"], cell["N"]
         p = cell["p"]
         pv = (1.0 / k) if p is None else p[0] / p[1]
+        p_arg = pv
+        if cell.get("ptype"):
+            p_arg = getattr(np, cell["ptype"])(pv)
+            pv = float(p_arg)
         seams.reseed(rs)
         ret = {n: [0] * (n + 1) for n in range(k + 1, N + 1)}
         accepts = 0
@@ -300,7 +309,7 @@ class C09Check(StatCheck):
             if p is None:
                 s = GeometricReservoirStorage(size=k, store_targets=False)
             else:
-                s = GeometricReservoirStorage(size=k, store_targets=False, constant_probability=pv)
+                s = GeometricReservoirStorage(size=k, store_targets=False, constant_probability=p_arg)
             prev = None
             for n in range(1, N + 1):
                 s.update({"t": n})
@@ -334,7 +343,7 @@ class C09Check(StatCheck):
             tape = seams.TAPE
             tape.install()
             try:
-                s = GeometricReservoirStorage(size=k, store_targets=False, constant_probability=pv)
+                s = GeometricReservoirStorage(size=k, store_targets=False, constant_probability=p_arg)
                 for n in range(1, k + 1):
                     tape.begin_op(None, None)
                     s.update({"t": n})
@@ -348,6 +357,27 @@ class C09Check(StatCheck):
                         det = ("frozen-reservoir-changed", "p=0 but arrival %d entered the reservoir when the generator "
                                "returned 0.0 (content %r -> %r)" % (n, before, tags))
                         break
+            finally:
+                tape.begin_op(None, None)
+                tape.counts = {}
+                tape.remove()
+        top_draws = 0
+        if pv >= 1.0 and det is None:
+            # scripted: the generator returns the largest double below 1 - at p = 1 it is still "a new observation"
+            tape = seams.TAPE
+            tape.install()
+            try:
+                s = GeometricReservoirStorage(size=k, store_targets=False, constant_probability=p_arg)
+                for n in range(1, k + 4):
+                    tape.begin_op({"u": ["hi"]} if n > k else None, None)
+                    s.update({"t": n})
+                    if n > k:
+                        top_draws += 1
+                        tags = [r["t"] for r in s.get_data()[0]]
+                        if n not in tags:
+                            det = ("newest-not-stored", "p=1 (given as %s) but arrival %d is not in the reservoir %r when the "
+                                   "generator returns 1-2^-53" % (type(p_arg).__name__, n, tags))
+                            break
             finally:
                 tape.begin_op(None, None)
                 tape.counts = {}
@@ -366,7 +396,9 @@ class C09Check(StatCheck):
             for j in range(k):
                 fam.add("slot:k=%d:p=%s:slot=%d" % (k, p, j), slots[j], accepts, 1.0 / k)
         return fam, det, {"draw_ops": R * N, "probes": {"reservoirs": R, "accepts": accepts,
-                                                                "scripted_zero_draws_at_p0": zero_draws}}
+                                                                "scripted_zero_draws_at_p0": zero_draws,
+                                                                "scripted_top_draws_at_p1": top_draws,
+                                                                "p_as_" + cell.get("ptype", "python_float"): 1}}
 
     def reductions(self, plan):
         out = []
